@@ -55,18 +55,35 @@ def coef_value(t):
     return (-1) ** (k + c) * (0.125 * k + 0.25 * c + e / 64.0 + s / 32.0)
 
 
-def fmt_num(x, style):
+def fmt_num(x, style, rng=None, coef=False):
+    """One number as text.  With an rng the spelling varies the way hand-edited and Fortran-written tables do: `.5` for `0.5`,
+    `5.` for `5.0`, an explicit plus sign, `1.D+00` for `1.0000000000D+00`, and -- for coefficients only -- a whole number
+    without a decimal point (`1`, `0`, `-1`)."""
+    v = rng.random() if rng is not None else 1.0
     if style == "plain":      # fixed-point, no exponent part
         from decimal import Decimal
         t = format(Decimal(repr(float(x))), "f")
-        return t if "." in t else t + ".0"
+        t = t if "." in t else t + ".0"
+        if v < 0.1 and t.startswith("0."):
+            t = t[1:]
+        elif v < 0.1 and t.startswith("-0."):
+            t = "-" + t[2:]
+        elif v < 0.25 and t.endswith(".0"):
+            t = t[:-1] if not coef or v < 0.15 else t[:-2]
+        elif v < 0.3 and not t.startswith("-"):
+            t = "+" + t
+        return t
     s = "%.10E" % x
+    if v < 0.15:
+        m, e = s.split("E")
+        m = m.rstrip("0")
+        s = m + "E" + e
     if style == "D":
         s = s.replace("E", "D")
     return s
 
 
-def render_text(lines, fmt, style, expf=exp_value, coeff=coef_value):
+def render_text(lines, fmt, style, expf=exp_value, coeff=coef_value, rng=None):
     out = []
     for ln in lines:
         k = ln["kind"]
@@ -83,7 +100,7 @@ def render_text(lines, fmt, style, expf=exp_value, coeff=coef_value):
         elif k == "gshell":
             out.append("%s   %d   1.00" % ("".join(LETTERS[l] for l in ln["ls"]), ln["K"]))
         elif k == "row":
-            out.append("      " + "       ".join([fmt_num(expf(ln["exp"]), style)] + [fmt_num(coeff(c), style) for c in ln["coefs"]]))
+            out.append("      " + "       ".join([fmt_num(expf(ln["exp"]), style, rng)] + [fmt_num(coeff(c), style, rng, coef=True) for c in ln["coefs"]]))
         elif k == "stars":
             out.append("****")
         elif k == "end":
@@ -169,17 +186,23 @@ def random_file(seed, d):
             lines.append({"kind": "gelem", "sym": sym})
         prev = None
         for _ in range(rng.randint(1, 8)):
-            sp = rng.random() < 0.15
-            ls = [0, 1] if sp else [rng.randint(0, 7)]
+            sp = rng.random() < 0.2
+            ls = [0, 1] if sp else [rng.randint(0, 7) if rng.random() < 0.6 else rng.randint(0, 1)]
             K = rng.randint(1, 10)
             M = 1 if sp else (rng.randint(1, 6) if fmt == "nwchem" else 1)
             if prev is not None and not sp and rng.random() < 0.3 and prev[0] == 1:
                 ls, exps = [prev[1]], prev[2]            # same l and exponents as the previous shell (Gaussian94 merges those)
                 K = len(exps)
+            elif prev is not None and sp and prev[0] == 1 and prev[1] in (0, 1) and rng.random() < 0.6:
+                exps = prev[2]                           # an SP block on the exponents of the S or P block in front of it
+                K = len(exps)
             else:
                 exps = sorted({float("%.7E" % (10 ** rng.uniform(-2, 5))) for _ in range(K)}, reverse=True)
                 K = len(exps)
             cols = [[float("%.7E" % rng.uniform(-2, 2)) or 0.5 for _ in range(K)] for _ in range(M * len(ls))]
+            for col in cols:                             # whole-number coefficients (1 for an uncontracted primitive, 0 as padding)
+                if rng.random() < 0.25:
+                    col[rng.randrange(K)] = rng.choice([1.0, -1.0, 2.0, 0.0 if K > 1 else 1.0])
             lines.append({"kind": "nwshell", "sym": sym, "ls": ls} if fmt == "nwchem" else {"kind": "gshell", "ls": ls, "K": K})
             for k in range(K):
                 lines.append({"kind": "row", "exp": exps[k], "coefs": [cols[c][k] for c in range(len(cols))]})
@@ -193,7 +216,7 @@ def random_file(seed, d):
             lines.append({"kind": "stars"})
     if fmt == "nwchem" and rng.random() < 0.7:
         lines.append({"kind": "end"})
-    text = render_text(lines, fmt, style, expf=lambda x: x, coeff=lambda x: x)
+    text = render_text(lines, fmt, style, expf=lambda x: x, coeff=lambda x: x, rng=rng)
     return {"id": d, "fmt": fmt, "text": text, "want": want, "npre": npre, "style": style}
 
 
